@@ -41,6 +41,7 @@ type Op struct {
 	NilCtx   bool     `json:"nil_ctx,omitempty"`    // WithMassive(nil)
 	NilOption bool    `json:"nil_option,omitempty"` // a nil Option among the options
 	EmptyTarget bool  `json:"empty_target,omitempty"` // WithTargetDir("") is passed: documented to mean the current directory
+	PreCancelled bool `json:"pre_cancelled,omitempty"` // iterator walk given WithMassive(ctx) with ctx cancelled already (the iterator form has no massive mode)
 	StrayEncode bool  `json:"stray_encode,omitempty"` // WithEncodeYAML() is passed to an operation that produces no encoded output (known finding: the library then skips growing the tree)
 	Stray    bool     `json:"stray,omitempty"`        // options the operation has no use for are passed too (accepted and ignored, alike in every mode and family)
 	SlashTarget bool  `json:"slash_target,omitempty"` // WithTargetDir("/") is passed: the root directory (outside the jail: refused)
@@ -89,6 +90,9 @@ func (o Op) String() string {
 	if o.StrayEncode {
 		s += "/with-encode-option"
 	}
+	if o.PreCancelled {
+		s += "/cancelled-context"
+	}
 	if o.NilOption {
 		s += "/nil-option"
 	}
@@ -106,6 +110,7 @@ type CtxPlan struct {
 	Mode   string `json:"mode"`    // "" none | pre (already cancelled) | cancel | deadline
 	AtStep int    `json:"at_step"` // scheduler step at which cancel / deadline happens
 	Custom bool   `json:"custom"`  // the caller's context is a type of its own (the context package then watches it with a goroutine)
+	Cause  bool   `json:"cause"`   // the context is cancelled with a cause of the caller's (WithCancelCause / WithTimeoutCause): Err() is still Canceled / DeadlineExceeded
 }
 
 // ownCtx is a context implemented by the caller, not by package context.
@@ -185,6 +190,7 @@ type Outcome struct {
 	EndlessReads int
 	WriterStalled bool
 	ReaderStalled bool
+	ReaderClosed  int
 	ReaderErr   error
 	WriterFired bool
 	WriterErr   error
@@ -504,6 +510,7 @@ func collect(out *Outcome, rd *simReader, wr *simWriter, cb *simCallback, d *sim
 	out.ReaderFired, out.ReaderErr = rd.Fired, rd.Err
 	out.EndlessReads, out.WriterStalled = rd.EndlessReads, wr.Stalled
 	out.ReaderStalled = rd.Stalled
+	out.ReaderClosed = rd.Closed
 	out.WriterFired, out.WriterErr = wr.Fired, wr.Err
 	out.WriterRefused = wr.Refused
 	out.CbFired, out.CbErr = cb.Fired, cb.Err
@@ -572,6 +579,10 @@ func execSim(op Op, env *Env) *Outcome {
 				ctx, cancel = oc, nil
 			case "cancel":
 				ctx, cancel = context.WithCancel(ctx)
+				if env.Ctx.Cause && !env.Ctx.Custom {
+					c2, cc := context.WithCancelCause(context.Background())
+					ctx, cancel = c2, func() { cc(errors.New("the caller's own cause")) }
+				}
 				if env.Ctx.Custom {
 					oc := &ownCtx{done: make(chan struct{})}
 					ctx, cancel = oc, oc.cancel
@@ -599,6 +610,9 @@ func execSim(op Op, env *Env) *Outcome {
 				})
 			case "deadline":
 				ctx, cancel = context.WithTimeout(ctx, time.Hour)
+				if env.Ctx.Cause {
+					ctx, cancel = context.WithTimeoutCause(context.Background(), time.Hour, errors.New("the caller's own cause"))
+				}
 				run.AtStep[env.Ctx.AtStep] = append(run.AtStep[env.Ctx.AtStep], func() {
 					out.CancelFired = true
 					out.CancelStep = run.Steps
